@@ -13,7 +13,10 @@
 
 #include <pika/execution.hpp>
 
+#include <chrono>
 #include <csignal>
+#include <cstring>
+#include <optional>
 #include <sys/mman.h>
 #include <sys/wait.h>
 #include <unistd.h>
@@ -362,8 +365,392 @@ static void case_join(int id, vctl::Rng& rng, std::vector<int> const* replay, in
     if (!ok) _exit(7);
 }
 
+// ---------------------------------------------------------------------- real-concurrency stress
+// "Nothing is signalled twice" includes the shared predecessor being STARTED twice when several
+// consumers of one split() sender call start() truly concurrently: the start flag's test-and-set has no
+// scheduling point inside, so the lock-step part cannot interleave it.  Here K in {2,3,4} consumers of one
+// split sender are released from a spin barrier (persistent threads, swept offsets of 0..255 spin
+// iterations) and call start() at the same instant; the predecessor is `leaf | then(f)` where the leaf
+// counts its start() calls and f its invocations.  Modes: SPI — the leaf completes inline in start(),
+// SPA — the leaf completes from one more racing thread (completion vs. add_continuation under real
+// concurrency as well), ES — ensure_started (one consumer) whose start() races the predecessor's
+// completion, STI / STA — the 2 or 3 element senders of one split_tuple (same start flag).  Monitor per trial: leaf started exactly once, f ran exactly once, every consumer got
+// exactly one completion, by set_value, with the right value.  Runs in a forked child: a crash / hang
+// of the real code is an observation (DIED ST ...).
+//   c03_lock stress <seed> <trials> <budget_ms>
+//   BAD ST <trial> mode=<m> K=<k> delays=<..> starts=<n> calls=<n> sig=<n:val:other|...>
+//   SUM ST <mode> <K> <trials>      DONE ST trials=<n> ms=<elapsed>
+namespace st {
+    struct Counters
+    {
+        std::atomic<int> starts{0}, calls{0};
+    };
+    struct Gate
+    {
+        std::atomic<void*> op{nullptr};
+        void (*fn)(void*) = nullptr;
+    };
+    template <bool Async>
+    struct leaf
+    {
+        Counters* c;
+        Gate* g;
+        int v;
+        bool strict;    // true: a second start() is only counted; false: it completes again, like just() would
+        template <template <class...> class T, template <class...> class Var>
+        using value_types = Var<T<int>>;
+        template <template <class...> class Var>
+        using error_types = Var<std::exception_ptr>;
+        static constexpr bool sends_done = false;
+        template <class R>
+        struct op
+        {
+            R r;
+            Counters* c;
+            Gate* g;
+            int v;
+            bool strict;
+            op(R&& r_, leaf const& l) : r(std::move(r_)), c(l.c), g(l.g), v(l.v), strict(l.strict) {}
+            op(op&&) = delete;
+            void start() & noexcept
+            {
+                // a second start() is counted (that is the violation); a strict leaf does not complete again, so
+                // that the observation stays "started twice" instead of a crash somewhere downstream
+                if (c->starts.fetch_add(1, std::memory_order_relaxed) != 0 && strict) return;
+                if constexpr (Async)
+                {
+                    g->fn = [](void* p) {
+                        auto* o = static_cast<op*>(p);
+                        ex::set_value(std::move(o->r), int(o->v));
+                    };
+                    g->op.store(this, std::memory_order_release);
+                }
+                else
+                    ex::set_value(std::move(r), int(v));
+            }
+        };
+        template <class R>
+        op<std::decay_t<R>> connect(R&& r) &&
+        {
+            return {std::decay_t<R>(std::forward<R>(r)), *this};
+        }
+    };
+    struct Obs
+    {
+        std::atomic<int> n{0}, val{-1}, other{0};
+    };
+    struct rcv
+    {
+        Obs* o;
+        void set_value(int const& v) && noexcept
+        {
+            o->val.store(v, std::memory_order_relaxed);
+            o->n.fetch_add(1);
+        }
+        template <class E>
+        void set_error(E&&) && noexcept
+        {
+            o->other.fetch_add(1);
+            o->n.fetch_add(1);
+        }
+        void set_stopped() && noexcept
+        {
+            o->other.fetch_add(1);
+            o->n.fetch_add(1);
+        }
+        constexpr ex::empty_env get_env() const noexcept { return {}; }
+    };
+
+    struct Task
+    {
+        void (*fn)(void*) = nullptr;
+        void* arg = nullptr;
+        int delay = 0;
+    };
+    inline void spin(int d)
+    {
+        for (volatile int i = 0; i < d; i = i + 1) {}
+    }
+    struct Pool
+    {
+        static constexpr int W = 4;
+        struct alignas(64) Slot
+        {
+            std::atomic<std::uint64_t> done{0};
+            Task t;
+        };
+        alignas(64) std::atomic<std::uint64_t> gen{0};
+        Slot slot[W];
+        std::thread th[W];
+        void worker(int w)
+        {
+            std::uint64_t my = 0;
+            for (;;)
+            {
+                std::uint64_t g;
+                unsigned spins = 0;
+                while ((g = gen.load(std::memory_order_acquire)) == my)
+                    if (++spins > 20000) std::this_thread::yield();
+                if (g == ~0ull) return;
+                my = g;
+                Slot& s = slot[w];
+                if (s.t.fn)
+                {
+                    spin(s.t.delay);
+                    s.t.fn(s.t.arg);
+                }
+                s.done.store(g, std::memory_order_release);
+            }
+        }
+        void begin()
+        {
+            for (int w = 0; w < W; ++w) th[w] = std::thread([this, w] { worker(w); });
+        }
+        void end()
+        {
+            gen.store(~0ull, std::memory_order_release);
+            for (int w = 0; w < W; ++w) th[w].join();
+        }
+        // tasks[0..n): one runs on the calling thread, the others on workers; all released by one store
+        void run(std::uint64_t g, Task* tasks, int n, int mainidx)
+        {
+            int w = 0;
+            for (int i = 0; i < n; ++i)
+                if (i != mainidx) slot[w++].t = tasks[i];
+            for (; w < W; ++w) slot[w].t = Task{};
+            gen.store(g, std::memory_order_release);
+            spin(tasks[mainidx].delay);
+            tasks[mainidx].fn(tasks[mainidx].arg);
+            for (w = 0; w < W; ++w)
+            {
+                unsigned spins = 0;
+                while (slot[w].done.load(std::memory_order_acquire) != g)
+                    if (++spins > 20000) std::this_thread::yield();
+            }
+        }
+    };
+    struct Shm
+    {
+        std::uint64_t cur;
+        int mode, K;
+        std::uint64_t per[5][5];
+        std::uint64_t total;
+    };
+    static char const* const MODE[5] = {"SPI", "SPA", "ES", "STI", "STA"};
+
+    static void fire(void* p)
+    {
+        Gate* g = static_cast<Gate*>(p);
+        void* o;
+        unsigned long spins = 0;
+        while (!(o = g->op.load(std::memory_order_acquire)))
+            if (++spins > 2000000000ul) return;    // never started: the consumers stay unsignalled (reported)
+        g->fn(o);
+    }
+    template <class OS>
+    static void start_os(void* p)
+    {
+        ex::start(*static_cast<OS*>(p));
+    }
+    static void verdict(std::uint64_t trial, int mode, int K, Task* tasks, int nt, Counters& c, Obs* obs, int want, int stride = 0)
+    {
+        bool bad = c.starts.load() != 1 || c.calls.load() != 1;
+        for (int i = 0; i < K; ++i) bad = bad || obs[i].n.load() != 1 || obs[i].val.load() != want + i * stride || obs[i].other.load() != 0;
+        if (!bad) return;
+        std::ostringstream o;
+        o << "BAD ST " << trial << " mode=" << MODE[mode] << " K=" << K << " delays=";
+        for (int i = 0; i < nt; ++i) o << (i ? "," : "") << tasks[i].delay;
+        o << " starts=" << c.starts.load() << " calls=" << c.calls.load() << " want=" << want << "+" << stride << "i sig=";
+        for (int i = 0; i < K; ++i) o << (i ? "|" : "") << obs[i].n.load() << ":" << obs[i].val.load() << ":" << obs[i].other.load();
+        std::printf("%s\n", o.str().c_str());
+        std::fflush(stdout);
+        _exit(9);    // the shared state may be corrupt: do not touch it again
+    }
+    static int sweep(vctl::Rng& rng) { return (int) rng.below(1ull << rng.below(9)); }
+
+    template <bool Async>
+    static void trial_split(Pool& P, std::uint64_t trial, int K, vctl::Rng& rng)
+    {
+        Counters c;
+        Gate gate;
+        Obs obs[4];
+        int const v0 = (int) (trial & 0xffff), add = 7;
+        Task tasks[5];
+        int nt = 0;
+        {
+            auto sp = ex::split(leaf<Async>{&c, &gate, v0, (trial & 3) != 3} | ex::then([&c](int v) {
+                c.calls.fetch_add(1, std::memory_order_relaxed);
+                return v + 7;
+            }));
+            using OS = decltype(ex::connect(sp, rcv{nullptr}));
+            std::optional<OS> os[4];
+            for (int i = 0; i < K; ++i)
+            {
+                os[i].emplace(pika::detail::with_result_of([&] { return ex::connect(sp, rcv{&obs[i]}); }));
+                tasks[nt++] = Task{&start_os<OS>, &*os[i], sweep(rng)};
+            }
+            if (Async) tasks[nt++] = Task{&fire, &gate, sweep(rng)};
+            P.run(trial + 1, tasks, nt, (int) rng.below(nt));
+            verdict(trial, Async ? 1 : 0, K, tasks, nt, c, obs, v0 + add);
+        }
+    }
+    static void trial_es(Pool& P, std::uint64_t trial, vctl::Rng& rng)
+    {
+        Counters c;
+        Gate gate;
+        Obs obs[1];
+        int const v0 = (int) (trial & 0xffff);
+        Task tasks[2];
+        {
+            auto es = ex::ensure_started(leaf<true>{&c, &gate, v0, (trial & 3) != 3} | ex::then([&c](int v) {
+                c.calls.fetch_add(1, std::memory_order_relaxed);
+                return v + 7;
+            }));
+            auto os = ex::connect(std::move(es), rcv{&obs[0]});
+            using OS = decltype(os);
+            tasks[0] = Task{&start_os<OS>, &os, sweep(rng)};
+            tasks[1] = Task{&fire, &gate, sweep(rng)};
+            P.run(trial + 1, tasks, 2, (int) rng.below(2));
+            verdict(trial, 2, 1, tasks, 2, c, obs, v0 + 7);
+        }
+    }
+    // split_tuple: consumer i is the i-th element sender; the same start flag guards the shared predecessor
+    template <class S>
+    struct Held
+    {
+        using OS = decltype(ex::connect(std::declval<S&&>(), rcv{nullptr}));
+        std::optional<OS> os;
+        void make(S& snd, Obs* o)
+        {
+            os.emplace(pika::detail::with_result_of([&] { return ex::connect(std::move(snd), rcv{o}); }));
+        }
+        Task task(int d) { return Task{&start_os<OS>, &*os, d}; }
+    };
+    template <bool Async, class Tup, std::size_t... I>
+    static void tuple_body(Pool& P, std::uint64_t trial, vctl::Rng& rng, Tup& tup, Counters& c, Gate& gate, int v0, std::index_sequence<I...>)
+    {
+        constexpr int K = (int) sizeof...(I);
+        Obs obs[K];
+        Task tasks[K + 1];
+        int nt = 0;
+        std::tuple<Held<std::tuple_element_t<I, Tup>>...> held;
+        ((std::get<I>(held).make(std::get<I>(tup), &obs[I]), tasks[nt++] = std::get<I>(held).task(sweep(rng))), ...);
+        if (Async) tasks[nt++] = Task{&fire, &gate, sweep(rng)};
+        P.run(trial + 1, tasks, nt, (int) rng.below(nt));
+        verdict(trial, Async ? 4 : 3, K, tasks, nt, c, obs, v0 + 7, 1);
+    }
+    template <bool Async>
+    static void trial_tuple(Pool& P, std::uint64_t trial, int K, vctl::Rng& rng)
+    {
+        Counters c;
+        Gate gate;
+        int const v0 = (int) (trial & 0xffff);
+        leaf<Async> l{&c, &gate, v0, (trial & 3) != 3};
+        if (K == 2)
+        {
+            auto tup = ex::split_tuple(std::move(l) | ex::then([&c](int v) {
+                c.calls.fetch_add(1, std::memory_order_relaxed);
+                return std::tuple<int, int>(v + 7, v + 8);
+            }));
+            tuple_body<Async>(P, trial, rng, tup, c, gate, v0, std::make_index_sequence<2>{});
+        }
+        else
+        {
+            auto tup = ex::split_tuple(std::move(l) | ex::then([&c](int v) {
+                c.calls.fetch_add(1, std::memory_order_relaxed);
+                return std::tuple<int, int, int>(v + 7, v + 8, v + 9);
+            }));
+            tuple_body<Async>(P, trial, rng, tup, c, gate, v0, std::make_index_sequence<3>{});
+        }
+    }
+    static void plan(std::uint64_t trial, int& mode, int& K)
+    {
+        // every prefix covers every (mode, K) evenly; split gets 6 of 11 blocks
+        static int const M[11] = {0, 0, 0, 1, 1, 1, 2, 3, 3, 4, 4}, KK[11] = {2, 3, 4, 2, 3, 4, 1, 2, 3, 2, 3};
+        int b = (int) ((trial / 256) % 11);
+        mode = M[b];
+        K = KK[b];
+    }
+    static int main_stress(std::uint64_t seed, std::uint64_t ntrials, long budget_ms)
+    {
+        Shm* shm = (Shm*) mmap(nullptr, sizeof(Shm), PROT_READ | PROT_WRITE, MAP_SHARED | MAP_ANONYMOUS, -1, 0);
+        std::memset(shm, 0, sizeof(Shm));
+        auto t0 = std::chrono::steady_clock::now();
+        auto elapsed = [&] { return (long) std::chrono::duration_cast<std::chrono::milliseconds>(std::chrono::steady_clock::now() - t0).count(); };
+        std::uint64_t next = 0;
+        int deaths = 0;
+        while (next < ntrials && elapsed() < budget_ms)
+        {
+            std::fflush(stdout);
+            pid_t pid = fork();
+            if (pid == 0)
+            {
+                if (!std::getenv("C03_KEEP_STDERR")) { (void) !freopen("/dev/null", "w", stderr); }
+                Pool* P = new Pool;
+                P->begin();
+                for (std::uint64_t tr = next; tr < ntrials; ++tr)
+                {
+                    if ((tr & 63) == 0)
+                    {
+                        // a trial needs all five threads to be scheduled once: milliseconds each when the machine is
+                        // oversubscribed, so the hang watchdog covers 64 trials only
+                        alarm(60);
+                        if (elapsed() >= budget_ms) break;
+                    }
+                    int mode, K;
+                    plan(tr, mode, K);
+                    shm->cur = tr;
+                    shm->mode = mode;
+                    shm->K = K;
+                    vctl::Rng rng(seed * 1000003ull + tr);    // per-trial stream: a restart does not shift later trials
+                    if (mode == 0) trial_split<false>(*P, tr, K, rng);
+                    else if (mode == 1) trial_split<true>(*P, tr, K, rng);
+                    else if (mode == 2) trial_es(*P, tr, rng);
+                    else if (mode == 3) trial_tuple<false>(*P, tr, K, rng);
+                    else trial_tuple<true>(*P, tr, K, rng);
+                    ++shm->per[mode][K];
+                    ++shm->total;
+                }
+                alarm(0);
+                P->end();
+                std::fflush(stdout);
+                _exit(0);
+            }
+            int stt = 0;
+            waitpid(pid, &stt, 0);
+            if (WIFEXITED(stt) && WEXITSTATUS(stt) == 0) break;
+            next = shm->cur + 1;
+            ++deaths;
+            if (!(WIFEXITED(stt) && WEXITSTATUS(stt) == 9))    // 9 = BAD line already printed
+            {
+                char const* what = "abort";
+                if (WIFSIGNALED(stt) && WTERMSIG(stt) == SIGALRM) what = "hang";
+                else if (WIFSIGNALED(stt) && WTERMSIG(stt) == SIGSEGV) what = "segv";
+                else if (WIFSIGNALED(stt) && WTERMSIG(stt) == SIGBUS) what = "segv";
+                else if (WIFEXITED(stt)) what = "exit";
+                std::printf("DIED ST %llu %s mode=%s K=%d\n", (unsigned long long) shm->cur, what, MODE[shm->mode], shm->K);
+            }
+            std::fflush(stdout);
+            if (deaths >= 6)
+            {
+                std::printf("SKIPPED ST after %d abnormal terminations\n", deaths);
+                break;
+            }
+        }
+        for (int m = 0; m < 5; ++m)
+            for (int k = 0; k < 5; ++k)
+                if (shm->per[m][k]) std::printf("SUM ST %s %d %llu\n", MODE[m], k, (unsigned long long) shm->per[m][k]);
+        std::printf("DONE ST trials=%llu ms=%ld\n", (unsigned long long) shm->total, elapsed());
+        std::fflush(stdout);
+        return 0;
+    }
+}    // namespace st
+
 int main(int argc, char** argv)
 {
+    if (argc > 2 && std::string(argv[1]) == "stress")
+        return st::main_stress(std::strtoull(argv[2], nullptr, 10), argc > 3 ? std::strtoull(argv[3], nullptr, 10) : 100000,
+            argc > 4 ? std::atol(argv[4]) : 15000);
     std::uint64_t seed = argc > 1 ? std::strtoull(argv[1], nullptr, 10) : 1;
     int ncases = argc > 2 ? std::atoi(argv[2]) : 100;
     // replay: c03_lock replay HO <kind> <chan> <N> <sched>  |  replay JN <kind> <n> <comps> <sched>
